@@ -8,6 +8,7 @@ import (
 	"math"
 	"os"
 	"reflect"
+	"sort"
 	"strings"
 
 	"github.com/bytedance/sonic"
@@ -44,6 +45,7 @@ func Main(defFlags string, defRT, defIR, defOracle bool, defPretouch int) {
 	ir := flag.Bool("ir", defIR, "IR lines")
 	oracle := flag.Bool("oracle", defOracle, "encoding/json lines")
 	pretouch := flag.Int("pretouch", defPretouch, "Q lines: Pretouch with compile options, then Marshal (option sets per random case; the corpus gets 6)")
+	qrep := flag.Int("qrep", 1, "repeat every Pretouch scenario this often and print the distinct outcomes as QS lines (Pretouch depends on map iteration order)")
 	shard := flag.String("shard", "0/1", "k/m: run only the cases whose index is k modulo m (the check runs the m shards in parallel)")
 	flag.Parse()
 	sk, sm := 0, 1
@@ -121,6 +123,20 @@ func Main(defFlags string, defRT, defIR, defOracle bool, defPretouch int) {
 					b = "1"
 				}
 				w.Line("Q", c.ID, fmt.Sprintf("%s/%d/%d", b, inl, rec), q.Field())
+				if *qrep > 1 {
+					seen := map[string]bool{q.Field(): true}
+					for k := 1; k < *qrep; k++ {
+						seen[Pretouched(c, on, inl, rec).Field()] = true
+					}
+					keys := make([]string, 0, len(seen))
+					for f := range seen {
+						keys = append(keys, f)
+					}
+					sort.Strings(keys)
+					for _, f := range keys {
+						w.Line("QS", c.ID, fmt.Sprintf("%s/%d/%d", b, inl, rec), f)
+					}
+				}
 			}
 			verifx.EncResetProgramCache()
 		}
